@@ -2862,8 +2862,14 @@ pub fn freeze(env: &mut FreezeEnv, expr: &LocExpr) -> NRes<LocExpr> {
                         .flat_map(|x| x.collect_identifiers(false /* declared_only */))
                         .collect::<HashSet<String>>(),
                 );
+                // parameter defaults are evaluated at call time in the closure's scope: resolve their
+                // free variables now like the rest of the lambda
+                let params = params
+                    .iter()
+                    .map(|p| box_freeze_lvalue(&mut env2, p))
+                    .collect::<NRes<Vec<Box<Lvalue>>>>()?;
                 Ok(Expr::Lambda(
-                    params.clone(),
+                    Rc::new(params),
                     Rc::new(freeze(&mut env2, body)?),
                 ))
             }
